@@ -32,10 +32,8 @@ from ..sexp import Sym, json_sx, sx_json
 # streams of inputs_schema that are open finding classes; "kw_enum_default" (former F9c, fixed by a742038) stays a
 # generated stream as a regression case: a failure there is a VIOLATION.  The former F21 witnesses (null items under
 # a non-null list) are part of every "nulls"/"rand" value: a refusal there is a VIOLATION too.
-REGRESSION_STREAMS = ["kw_enum_default"]
+REGRESSION_STREAMS = ["kw_enum_default", "obj_enum_default", "list_obj_default"]   # F9c, F9a, F9b: fixed
 STREAM_CLASS = {
-    "obj_enum_default": "F9a-object-default-with-enum",
-    "list_obj_default": "F9b-list-default-with-object",
     "coerced_default": "F9d-default-relies-on-literal-coercion",
     "colliding_names": "F18-colliding-field-names",
 }
@@ -114,10 +112,6 @@ def lit_relies_on_coercion(t, node):
 
 
 def default_class(t, node):
-    if lit_has_obj_with_enum(node):
-        return STREAM_CLASS["obj_enum_default"]
-    if lit_has_list_with_obj(node):
-        return STREAM_CLASS["list_obj_default"]
     if lit_relies_on_coercion(t, node):
         return STREAM_CLASS["coerced_default"]
     return None
